@@ -2,16 +2,18 @@
 (***************************************************************************)
 (* GEN for C19: every CBLDM call with EXACTLY ONE invalid argument (and    *)
 (* the all-valid control), over a small universe of otherwise valid        *)
-(* inputs.  arg is the invalid value, as text.                             *)
+(* inputs.  arg is the invalid value, as text; a prefix names the numeric   *)
+(* type it is presented in (np64: / np32: numpy floats, npi: numpy integer,*)
+(* frac: fractions.Fraction) - the value decides validity, not the type.   *)
 (***************************************************************************)
 EXTENDS Prt, Json
 CONSTANTS MaxN, MaxV
 VARIABLES vals, kind, arg, sent
 ArgsOf(kd) == CASE kd = "none"  -> {"-"}
-                [] kd = "k"     -> {"0", "1", "3", "4"}
+                [] kd = "k"     -> {"0", "1", "3", "4", "npi:3", "npi:1"}
                 [] kd = "neg"   -> {"first", "last", "all"}          \* which item(s) are made negative
-                [] kd = "limit" -> {"0", "-1", "-0.5"}
-                [] kd = "bound" -> {"0", "-1", "-5", "1.5", "2.5"}
+                [] kd = "limit" -> {"0", "-1", "-0.5", "np64:0", "np64:-1.5", "npi:0"}
+                [] kd = "bound" -> {"0", "-1", "-5", "1.5", "2.5", "np64:1.5", "np64:2.5", "np32:2.5", "np64:0.5", "npi:0", "npi:-2", "frac:3/2", "frac:5/2"}
 Init == /\ \E n \in 1..MaxN : vals \in [1..n -> 0..MaxV]
         /\ kind \in {"none", "k", "neg", "limit", "bound"}
         /\ arg \in ArgsOf(kind)
